@@ -25,6 +25,8 @@ func checkC11(c *Ctx, r *Report) {
 	c11R4(c, r)
 	c11R5(c, r)
 	c11R6(c, r)
+	c11CanonicalNames(c, r, "C11.R1.canonical-names")
+	borrow(c, r, c15Out, "C15.R4.sender", "C11.R5.server-chain", 1, "the server's writer keeps the MAC of the envelope it just signed as the prior MAC of the next one", func(k string) bool { return strings.Contains(k, "mac-chain") }, "envelopes 2..n of a signed multi-message reply are then digested over the request MAC instead of the previous envelope's MAC")
 }
 
 func isUint64(v ssa.Value) bool {
